@@ -207,10 +207,11 @@ def _contains_return(stmts: List[ast.stmt]) -> bool:
     return False
 
 
-def _lower_returns(stmts: List[ast.stmt], emit) -> Tuple[List[ast.stmt], bool]:
-    """rewrite `return v` into emit(v) (a list of statements), pushing the
-    statements that follow an `if` with returns into its branches.  Returns
-    (new statements, control never falls off the end)."""
+def _lower_returns(stmts: List[ast.stmt], emit, k: Optional[List[ast.stmt]] = None) -> Tuple[List[ast.stmt], bool]:
+    """rewrite `return v` into emit(v) (a list of statements).  Continuation-passing: the statements that follow an `if`
+    containing a return are pushed into those of its branches that fall through (k = what runs after falling off the end of
+    stmts).  Returns (new statements, control never falls off the end)."""
+    k = k or []
     out: List[ast.stmt] = []
     for i, s in enumerate(stmts):
         if isinstance(s, ast.Return):
@@ -221,29 +222,26 @@ def _lower_returns(stmts: List[ast.stmt], emit) -> Tuple[List[ast.stmt], bool]:
             continue
         if isinstance(s, ast.If):
             rest = stmts[i + 1:]
-            b, br = _lower_returns(s.body, emit)
-            o, orr = _lower_returns(s.orelse, emit)
-            r, rr = _lower_returns(rest, emit) if rest else ([], False)
-            if br and not orr:
-                # `if c: ... return`  rest  ->  if c: ... else: <orelse> rest
-                new = ast.If(test=s.test, body=b or [ast.Pass()], orelse=o + r)
-                out.append(ast.copy_location(new, s))
-                return out, rr
-            if orr and not br:
-                new = ast.If(test=s.test, body=b + r, orelse=o or [ast.Pass()])
-                out.append(ast.copy_location(new, s))
-                return out, rr
-            if br and orr:
-                out.append(ast.copy_location(ast.If(test=s.test, body=b, orelse=o), s))
-                return out, True
-            # both branches may fall through but contain returns deeper down: duplicate the rest
-            r2 = copy.deepcopy(r)
-            new = ast.If(test=s.test, body=b + r, orelse=o + r2)
+            kk, kr = _lower_returns(rest, emit, k)
+            b, br = _lower_returns(s.body, emit, kk)
+            o, orr = _lower_returns(s.orelse, emit, copy.deepcopy(kk) if s.orelse or True else kk)
+            new = ast.If(test=s.test, body=b or [ast.Pass()], orelse=o)
             out.append(ast.copy_location(new, s))
-            return out, rr
+            return out, (br or False) and (orr or False) if False else _never_falls(out)
         raise Unsupported(f"return inside {type(s).__name__}")
-    return out, False
+    out.extend(k)
+    return out, _never_falls(out)
 
+
+def _never_falls(stmts: List[ast.stmt]) -> bool:
+    if not stmts:
+        return False
+    s = stmts[-1]
+    if isinstance(s, (ast.Return, ast.Raise, ast.Continue, ast.Break)):
+        return True
+    if isinstance(s, ast.If) and s.orelse:
+        return _never_falls(s.body) and _never_falls(s.orelse)
+    return False
 
 
 def drop_identities(stmts: List[ast.stmt]) -> List[ast.stmt]:
@@ -299,10 +297,23 @@ def _none_test(s: ast.stmt, t: str):
     return None
 
 
-def thread_temporary(repl: List[ast.stmt], t: str, rest: List[ast.stmt], caller: ast.AST):
-    """repl ends, on every path, with `t = None` or `t = (e1, .., en)`; the statements that follow are an optional
-    `if t is None: <terminal>` and `x1, .., xn = t`, and t is used nowhere else: specialise the followers into the leaves.
-    Returns (new repl, number of following statements consumed) or None."""
+def _syntactically_nonnull(e: ast.AST) -> bool:
+    if isinstance(e, ast.Constant):
+        return e.value is not None
+    if isinstance(e, (ast.Tuple, ast.List, ast.Dict, ast.Set, ast.ListComp, ast.SetComp, ast.DictComp, ast.GeneratorExp, ast.JoinedStr, ast.Compare, ast.Lambda)):
+        return True
+    if isinstance(e, ast.BinOp) and isinstance(e.op, (ast.Add, ast.Sub, ast.Mult, ast.FloorDiv, ast.Mod)):
+        return True
+    if isinstance(e, ast.Call) and isinstance(e.func, ast.Name) and e.func.id in ("len", "int", "str", "max", "min", "sum", "abs", "list", "tuple", "set", "dict", "sorted", "bool", "repr"):
+        return True
+    return False
+
+
+def thread_temporary(repl: List[ast.stmt], t: str, rest: List[ast.stmt], caller: ast.AST, nonnull=None):
+    """repl ends, on every path, with `t = None` or `t = <value>`; the statements that follow are an optional
+    `if t is None: <terminal>` and then `x1, .., xn = t` (value a tuple display) or `x = t` (value known not to be None), and t
+    is used nowhere else: specialise the followers into the leaves.  Returns (new repl, number of following statements
+    consumed) or None."""
     leaves = _leaf_assigns(repl, t)
     if not leaves:
         return None
@@ -311,14 +322,18 @@ def thread_temporary(repl: List[ast.stmt], t: str, rest: List[ast.stmt], caller:
     if k < len(rest) and _none_test(rest[k], t) is not None:
         none_body = _none_test(rest[k], t)
         k += 1
-    unpack = None
-    if k < len(rest) and isinstance(rest[k], ast.Assign) and len(rest[k].targets) == 1 and isinstance(rest[k].targets[0], (ast.Tuple, ast.List)) \
-            and isinstance(rest[k].value, ast.Name) and rest[k].value.id == t and all(isinstance(e, ast.Name) for e in rest[k].targets[0].elts):
-        unpack = rest[k]
-        k += 1
-    if unpack is None:
+    unpack = single = None
+    if k < len(rest) and isinstance(rest[k], ast.Assign) and len(rest[k].targets) == 1 and isinstance(rest[k].value, ast.Name) and rest[k].value.id == t:
+        tg = rest[k].targets[0]
+        if isinstance(tg, (ast.Tuple, ast.List)) and all(isinstance(e, ast.Name) for e in tg.elts):
+            unpack = rest[k]
+            k += 1
+        elif isinstance(tg, ast.Name):
+            single = rest[k]
+            k += 1
+    if unpack is None and single is None:
         return None
-    n = len(unpack.targets[0].elts)
+    n = len(unpack.targets[0].elts) if unpack is not None else 0
     vals = []
     for blk, idx in leaves:
         v = blk[idx].value
@@ -326,7 +341,9 @@ def thread_temporary(repl: List[ast.stmt], t: str, rest: List[ast.stmt], caller:
             if none_body is None:
                 return None
             vals.append(None)
-        elif isinstance(v, ast.Tuple) and len(v.elts) == n and not any(isinstance(e, ast.Starred) for e in v.elts):
+        elif unpack is not None and isinstance(v, ast.Tuple) and len(v.elts) == n and not any(isinstance(e, ast.Starred) for e in v.elts):
+            vals.append(v)
+        elif single is not None and (none_body is None or _syntactically_nonnull(v) or (nonnull is not None and nonnull(v))):
             vals.append(v)
         else:
             return None
@@ -338,27 +355,49 @@ def thread_temporary(repl: List[ast.stmt], t: str, rest: List[ast.stmt], caller:
         own = sum(1 for x in ast.walk(caller) if isinstance(x, ast.Name) and x.id == t and isinstance(x.ctx, ast.Store))
         if uses - mine - own > 0 or own > 1:
             return None
-    names = [e.id for e in unpack.targets[0].elts]
     for (blk, idx), v in zip(leaves, vals):
         node = blk[idx]
         if v is None:
             blk[idx:idx + 1] = copy.deepcopy(none_body)
             continue
-        pairs = [(nm, e) for nm, e in zip(names, v.elts) if not (isinstance(e, ast.Name) and e.id == nm)]
-        indep = all(nm not in _names(e2) for i, (nm, _) in enumerate(pairs) for j, (_, e2) in enumerate(pairs) if j > i)
-        if indep:
-            new = [ast.copy_location(ast.Assign(targets=[ast.Name(id=nm, ctx=ast.Store())], value=e, lineno=node.lineno), node) for nm, e in pairs]
+        if single is not None:
+            tgt = single.targets[0].id
+            if isinstance(v, ast.Name) and v.id == tgt:
+                new = []
+            else:
+                new = [ast.copy_location(ast.Assign(targets=[ast.Name(id=tgt, ctx=ast.Store())], value=v, lineno=node.lineno), node)]
         else:
-            new = [ast.copy_location(ast.Assign(targets=[copy.deepcopy(unpack.targets[0])], value=v, lineno=node.lineno), node)]
+            new = split_parallel([e.id for e in unpack.targets[0].elts], list(v.elts), unpack.targets[0], v, node)
         blk[idx:idx + 1] = new or [ast.copy_location(ast.Pass(), node)]
     return repl, k
 
 
+def split_parallel(names: List[str], values: List[ast.AST], target: ast.AST, value: ast.AST, at: ast.AST) -> List[ast.stmt]:
+    """`n1, .., nk = v1, .., vk` as sequential assignments when no later value reads an earlier target (identities dropped)"""
+    pairs = [(nm, e) for nm, e in zip(names, values) if not (isinstance(e, ast.Name) and e.id == nm)]
+    indep = all(nm not in _names(e2) for i, (nm, _) in enumerate(pairs) for j, (_, e2) in enumerate(pairs) if j > i)
+    if indep:
+        return [ast.copy_location(ast.Assign(targets=[ast.Name(id=nm, ctx=ast.Store())], value=e, lineno=at.lineno), at) for nm, e in pairs]
+    return [ast.copy_location(ast.Assign(targets=[copy.deepcopy(target)], value=value, lineno=at.lineno), at)]
+
+
 class Inliner:
-    def __init__(self, modname: str, tree: ast.Module):
-        self.modname, self.tree = modname, tree
+    def __init__(self, modname: str, tree: ast.Module, root=None):
+        self.modname, self.tree, self.root = modname, tree, root
         self.log: List[str] = []
         self.counter = 0
+
+    def nonnull(self, e: ast.AST) -> bool:
+        """the expression (a node of the analysed module, positions intact) is not Optional according to mypy"""
+        if self.root is None:
+            return False
+        try:
+            from .typed import Typed, is_optional
+
+            t = Typed.get(self.root).type_of(self.modname, e)
+        except Exception:  # noqa: BLE001
+            return False
+        return bool(t) and not is_optional(t) and t not in ("None", "Any", "builtins.object") and "Any" not in t
 
     # ---- discovery ----------------------------------------------------
     def extras(self) -> Dict[Tuple[Optional[str], str], ast.FunctionDef]:
@@ -504,6 +543,10 @@ class Inliner:
         else:
             def emit(v, node):
                 val = v if v is not None else ast.Constant(value=None)
+                if isinstance(stmt, ast.Assign) and len(stmt.targets) == 1 and isinstance(stmt.targets[0], (ast.Tuple, ast.List)) and isinstance(val, ast.Tuple) \
+                        and len(val.elts) == len(stmt.targets[0].elts) and all(isinstance(e, ast.Name) for e in stmt.targets[0].elts) \
+                        and not any(isinstance(e, ast.Starred) for e in val.elts):
+                    return split_parallel([e.id for e in stmt.targets[0].elts], list(val.elts), stmt.targets[0], val, node) or [ast.copy_location(ast.Pass(), node)]
                 new = copy.deepcopy(stmt)
                 new.value = val
                 return [ast.copy_location(new, node)]
@@ -565,7 +608,7 @@ class Inliner:
             else:
                 # a result routed through a temporary (`t = helper(..)`; `if t is None: continue`; `a, b = t`) is threaded into the branches
                 if isinstance(s, ast.Assign) and len(s.targets) == 1 and isinstance(s.targets[0], ast.Name):
-                    thr = thread_temporary(repl, s.targets[0].id, body[i + 1:], caller)
+                    thr = thread_temporary(repl, s.targets[0].id, body[i + 1:], caller, self.nonnull)
                     if thr is not None:
                         repl, skip = thr
                         self.log.append(f"{self.modname}: threaded temporary {s.targets[0].id} at line {s.lineno}")
@@ -730,13 +773,13 @@ def referenced_elsewhere(trees: Dict[str, ast.Module], modname: str, name: str) 
     return False
 
 
-def inline_extras(trees: Dict[str, ast.Module]) -> List[str]:
+def inline_extras(trees: Dict[str, ast.Module], root=None) -> List[str]:
     """trees: module name -> parsed module (modified in place).  Returns a log."""
     log: List[str] = []
     for modname, tree in trees.items():
         if modname == "test_factories":
             continue
-        inl = Inliner(modname, tree)
+        inl = Inliner(modname, tree, root)
         # helpers used from other modules are left alone
         ex = inl.extras()
         keep_out = {k for k in ex if referenced_elsewhere(trees, modname, k[1])}
